@@ -79,7 +79,7 @@ let run (hist : string) (impl : string) =
             List.iter (fun l -> let kd = tag l in Hashtbl.replace kinds kd (1 + (try Hashtbl.find kinds kd with Not_found -> 0))) i;
             if i <> [] then Hashtbl.replace nontriv (hst.ehline ^ text ^ String.concat "|" (List.map show i)) ();
             (* property checkers on the implementation's observations *)
-            let (fails, mon') = Chk_e2e.step hst.ecfg !y y' ev (List.map (fun (l : line) -> (l.t, l.text)) i) !mon in
+            let (fails, mon') = Chk_e2e.step hst.ecfg !y y' ev (List.map (fun (l : line) -> (l.t, l.text)) i) outs !mon in
             mon := mon';
             List.iter (fun (p, c) -> fail p c k (Printf.sprintf "event=%s impl=[%s]" text (String.concat "; " (List.map show i)))) fails;
             (* correspondence, channel by channel *)
